@@ -43,10 +43,16 @@ func runOne(ctx context.Context, s solverSpec, file string, timeoutS int) (strin
 	cmd.Stderr = &out
 	_ = cmd.Run()
 	text := out.String()
-	first := strings.TrimSpace(strings.SplitN(text, "\n", 2)[0])
-	switch first {
-	case "unsat", "sat", "unknown":
-		return first, text
+	for _, ln := range strings.Split(text, "\n") {
+		ln = strings.TrimSpace(ln)
+		switch ln {
+		case "unsat", "sat", "unknown":
+			return ln, text
+		}
+		if ln == "" || strings.HasPrefix(ln, "WARNING") {
+			continue
+		}
+		break
 	}
 	if strings.Contains(text, "timeout") || cctx.Err() != nil {
 		return "timeout", text
